@@ -81,7 +81,9 @@ def _unquote_path(filepath: str) -> str:
     >>> _unquote_path('a.txt')
     'a.txt'
     """
-    filepath = filepath.strip()
+    # NOTE: only the blanks that separate the fields of a status line
+    #   (str.strip would also remove a unicode blank that is part of a name)
+    filepath = filepath.strip(" ")
     if not (len(filepath) >= 2 and filepath.startswith('"') and filepath.endswith('"')):
         return filepath
 
@@ -188,6 +190,11 @@ class VCSAPI:
             # NOTE: git porcelain lines are "XY <path>" (X or Y may be a space),
             #   hg lines are "X <path>". Renames are "XY <orig> -> <path>".
             status, filepaths = line[:2].strip(), line[2:]
+            if self.name != 'git':
+                # NOTE: hg prints the name as it is (never quoted, blanks included)
+                status_items.append((status, filepaths))
+                continue
+
             # NOTE: only renames/copies have two paths (a name may contain " -> ")
             is_rename    = status[:1] in ("R", "C") and self.name == 'git'
             rename_match = RENAME_RE.match(filepaths) if is_rename else None
